@@ -119,9 +119,15 @@ def oracle_family(ctx, fam, rng, problems):
     else:
         if pb is None or [tuple(map(float, b)) for b in pb] != [tuple(map(float, b)) for b in fam.box]:
             problems.append((f"{name}: pixel_bounds {pb} != bounding box {fam.box}", {}))
-    for _ in range(4):
+    for probe in range(5):
         pt = families.random_point(rng, fam)
         pt = [p + rng.choice([0.0, 0.25, 0.5, -0.375]) for p in pt] if not fam.exact else pt
+        if probe == 4:
+            if not fam.box:
+                continue
+            # a point outside the box on one axis: the values interface must mask it exactly like plain evaluation
+            k = rng.randrange(len(pt))
+            pt[k] = float(fam.box[k][1]) + rng.choice([1.0, 7.5, 1000.0]) if rng.random() < 0.5 else float(fam.box[k][0]) - rng.choice([1.0, 7.5])
         arr = rng.random() < 0.4 and not name.startswith("cube3d_fixed")   # astropy fix_inputs returns mixed shapes
         args = [np.array([p, p + 1.0, p - 2.0]) for p in pt] if arr else pt
         try:
@@ -144,7 +150,7 @@ def oracle_family(ctx, fam, rng, problems):
             continue
         ctx.case(key=(name, tuple(pt), arr), nontrivial=True, kind="family/" + name,
                  sample={"family": name, "pixel": pt, "array_input": arr})
-        if not fam.analytic_inverse or name.startswith("cube3d_fixed"):
+        if probe == 4 or not fam.analytic_inverse or name.startswith("cube3d_fixed"):
             continue
         try:
             world = list(v) if n_out > 1 else [v if arr else v[0]]
